@@ -66,6 +66,7 @@ pub fn gen_stream(name: &str, seed: u64, n: usize, tier: &str) -> Vec<String> {
         "run_runtime" => progs::generate_run(&mut rng, n, tier, &["runtime"], "any"),
         "run_gc" => progs::generate_run_gc(&mut rng, n, tier),
         "paths" => progs::generate_paths(&mut rng, n, tier),
+        "op_limits" => progs::generate_op_limits(&mut rng, n, tier),
         "run_default" => progs::generate_run(&mut rng, n, tier, &["chia"], "default"),
         "op" => progs::generate_op(&mut rng, n, tier, None),
         "unknown" => progs::generate_unknown(&mut rng, n, tier),
@@ -91,6 +92,7 @@ pub fn run_oracle(name: &str, seed: u64, n: usize, tier: &str) -> util::OracleRe
         "classic_big" => classic::oracle_big(&mut rng, n, tier),
         "ref_vectors" | "ref_findings" => refclvm::oracle(name, &mut rng, n, tier),
         "classic_decoders" => classic::oracle_decoders(&mut rng, n, tier),
+        "interp_malachite_limits" => interp_oracles::oracle_malachite_limits(&mut rng, n, tier),
         "interp_guards" => interp_oracles::oracle_guards(&mut rng, n, tier),
         "interp_sha256tree" => interp_oracles::oracle_sha256tree(&mut rng, n, tier),
         s if s.starts_with("interp_") => interp_oracles::oracle(&s[7..], &mut rng, n, tier),
